@@ -95,17 +95,20 @@ def run(ctx, ck) -> None:
     init = ravel.own.get('__init__')
     if not isinstance(init, ast.FunctionDef):
         raise AnalysisError('anchor vanished: RavelOperator.__init__')
-    F, La = ('var', 'first_axis'), ('var', 'last_axis')
-    tests = [term(n.test) for n in ast.walk(init) if isinstance(n, ast.If) and any(isinstance(b, ast.Raise) for b in n.body)]
-    same_sign = any(contains(t, ('chain', ('le', 'lt'), ('const', '0'), La, F)) and contains(t, ('chain', ('lt', 'lt'), La, F, ('const', '0'))) for t in tests)
+    from ..terms import raise_paths
+
+    F, La = ('var', init.args.args[1].arg), ('var', init.args.args[2].arg)
+    rps = raise_paths(init, 'ValueError')
+    chain_a = {('chain', ('le', 'lt'), ('const', '0'), La, F), ('and', ('cmp', 'le', ('const', '0'), La), ('cmp', 'lt', La, F))}
+    chain_b = {('chain', ('lt', 'lt'), La, F, ('const', '0')), ('and', ('cmp', 'lt', La, F), ('cmp', 'lt', F, ('const', '0')))}
+    same_sign = any(f[0] == 'truth' and f[2] is True and any(contains(f[1], c) for c in chain_a) and any(contains(f[1], c) for c in chain_b) for fs, _, _ in rps for f in fs)
     ck.expect('A2', same_sign, init, 'first axis after the last one (both non-negative or both negative) is refused', 'a first axis lying after the last one (same sign) is no longer refused at construction', instance='ravel same-sign order')
+    leaves_t = ('call', ('attr', ('attr', ('var', 'jax'), 'tree'), 'leaves'), (('var', 'in_structure'),), ())
     per_leaf = False
-    for loop in [n for n in ast.walk(init) if isinstance(n, ast.For)]:
-        it = term(loop.iter)
-        if it == ('call', ('attr', ('attr', ('var', 'jax'), 'tree'), 'leaves'), (('var', 'in_structure'),), ()):
-            for n in ast.walk(loop):
-                if isinstance(n, ast.If) and any(isinstance(b, ast.Raise) for b in n.body) and term(n.test) in (('cmp', 'gt', ('var', 'first'), ('var', 'last')), ('cmp', 'lt', ('var', 'last'), ('var', 'first'))):
-                    per_leaf = True
+    for fs, env, p in rps:
+        in_loop = any(ev[0] == 'iter' and ev[2] and term(ev[1].iter) == leaves_t for ev in p.events)
+        if in_loop and any(f[0] == 'lt' and 'ndim' in show(f[1]) and 'ndim' in show(f[2]) for f in fs):
+            per_leaf = True
     ck.expect('A2', per_leaf, init, 'with axes of mixed sign the order is checked on every leaf (it depends on the rank of the leaf)', 'mixed-sign ravel axes are no longer validated against every leaf', instance='ravel mixed-sign per leaf')
     stores = [i for i, st in enumerate(init.body) if 'self.' in ast.unparse(st).split('=')[0] and isinstance(st, ast.Assign) or 'super().__init__' in ast.unparse(st)]
     raises = [i for i, st in enumerate(init.body) if any(isinstance(n, ast.Raise) for n in ast.walk(st))]
@@ -121,17 +124,17 @@ def run(ctx, ck) -> None:
     i_store = next((i for i, (s, st) in enumerate(zip(order, rinit.body)) if (isinstance(st, ast.Assign) and s.startswith('self.')) or 'super().__init__' in s), None)
     ck.expect('A2', i_chk is not None and (i_store is None or i_chk < i_store), rinit, 'the target shape is checked against every leaf before any field is stored', 'ReshapeOperator stores its fields before (or without) checking the target shape', instance='reshape check first')
     size_guard = False
-    for loop in [n for n in ast.walk(chk) if isinstance(n, ast.For)]:
-        if term(loop.iter) == ('call', ('attr', ('attr', ('var', 'jax'), 'tree'), 'leaves'), (('var', 'in_structure'),), ()):
-            for n in ast.walk(loop):
-                if isinstance(n, ast.If) and any(isinstance(b, ast.Raise) for b in n.body):
-                    t = term(n.test, path_env(type('P', (), {'events': [('stmt', s) for s in loop.body if isinstance(s, ast.Assign)]})()))  # type: ignore[arg-type]
-                    if t[0] == 'cmp' and t[1] == 'ne' and {show(t[2])[:9], show(t[3])[:9]} & {'leaf.size'} and 'prod(' in show(t):
-                        size_guard = True
+    for fs, env, p in raise_paths(chk, 'ValueError'):
+        loop_ev = next((ev for ev in p.events if ev[0] == 'iter' and ev[2]), None)
+        if loop_ev is None or term(loop_ev[1].iter) != leaves_t:
+            continue
+        for f in fs:
+            if f[0] == 'ne' and any('size' in show(x) and 'elem' in show(x) for x in f[1]) and any('prod(' in show(x) for x in f[1]):
+                size_guard = True
     ck.expect('A2', size_guard, chk, 'a target shape whose size differs from the leaf size is refused, for every leaf', 'a target shape of a different size is no longer refused for every leaf', instance='reshape size per leaf')
-    ntests = [term(n.test) for n in ast.walk(norm) if isinstance(n, ast.If) and any(isinstance(b, ast.Raise) for b in n.body)]
-    neg = any('lt (-1)' in show(t).replace('neg(1)', '(-1)') or 'lt neg(1)' in show(t) or '< -1' in show(t) for t in ntests) or any(contains(t, ('cmp', 'lt', ('var', '_'), ('unop', 'neg', ('const', '1')))) for t in ntests)
-    second = any(contains(t, ('cmp', 'in', ('unop', 'neg', ('const', '1')), ('var', 'after'))) for t in ntests)
+    nfacts = [fs for fs, _, _ in raise_paths(norm, 'ValueError')]
+    neg = any(f[0] == 'truth' and f[2] is True and f[1][0] == 'call' and f[1][1] == ('var', 'any') and ("'lt'" in repr(f[1]) and "neg" in repr(f[1])) for fs in nfacts for f in fs)
+    second = any(f[0] == 'in' and f[3] is True and f[1] in (('unop', 'neg', ('const', '1')), ('const', '-1')) for fs in nfacts for f in fs)
     ck.expect('A2', neg, norm, 'sizes below -1 are refused', 'negative sizes other than -1 are no longer refused', instance='reshape negative size')
     ck.expect('A2', second, norm, 'a second unknown (-1) size is refused', 'a second -1 in the target shape is no longer refused', instance='reshape second unknown')
 
